@@ -90,7 +90,6 @@ MCSpec == MCInit /\ [][MCNext]_mcvars
 View == <<wb, steps, saved>>
 
 (* ---- the property on the design ---------------------------------------------------------------------- *)
-CanonOrd(S) == SetToSortSeq(ExtLinks(S), LAMBDA a, b : a.r < b.r \/ (a.r = b.r /\ a.c < b.c))
 Perms(T) == {f \in [1..Cardinality(T) -> T] : \A i, j \in 1..Cardinality(T) : i # j => f[i] # f[j]}
 Ords(i, o) == [j \in DOMAIN wb.sheets |-> IF j = i THEN o ELSE CanonOrd(wb.sheets[j])]
 GoodOrds == UNION {{Ords(i, o) : o \in Perms(ExtLinks(wb.sheets[i]))} : i \in DOMAIN wb.sheets}
